@@ -977,6 +977,56 @@ theorem sound_code_wrong (tv : List String) (tr : Hist) (j : Nat) (want : W) (hf
     subst hc
     exact ⟨m, o, hat, hne, specWire_rule hw⟩
 
+/-- Why the table demands -32601: the method is removed from the protocol the request was sent under,
+or is `server/discover` under a legacy protocol, or — past every earlier check — is unknown to the
+receiving side (server or client). -/
+theorem rule_methodNotFound {tv : List String} {init : Bool} {m : Msg} (h : Rule tv init m (.err (-32601) none)) :
+    m.req.hasId = true ∧
+    ((m.new = true ∧ m.mname ∈ removedNames) ∨ (m.side = .server ∧ m.new = false ∧ m.mname = "server/discover") ∨
+     (PastChecks tv init m ∧ flagsOf m = none)) := by
+  generalize hw : W.err (-32601) none = want at h
+  cases h <;> simp_all [refusal]
+  all_goals (split at hw <;> simp_all)
+
+/-- Why the table demands -32600: an id on a notification-only method, or required params missing
+(absent or null) — on either receiving side. -/
+theorem rule_invalidRequest {tv : List String} {init : Bool} {m : Msg} (h : Rule tv init m (.err (-32600) none)) :
+    m.req.hasId = true ∧ PastChecks tv init m ∧ ∃ f, flagsOf m = some f ∧
+      ((f.notification = true) ∨ (f.missingParamsOK = false ∧ (m.req.params = .absent ∨ m.req.params = .null))) := by
+  generalize hw : W.err (-32600) none = want at h
+  cases h <;> simp_all [refusal]
+  all_goals (try (split at hw <;> simp_all))
+  all_goals (first | exact ⟨_, rfl, by simp_all⟩ | skip)
+
+/-- Why the table demands -32602: incomplete per-request metadata, or params that do not decode. -/
+theorem rule_invalidParams {tv : List String} {init : Bool} {m : Msg} (h : Rule tv init m (.err (-32602) none)) :
+    m.req.hasId = true ∧
+    ((m.new = true ∧ metaComplete m.req = false) ∨
+     (PastChecks tv init m ∧ (m.req.params = .objUndecodable ∨ m.req.params = .wrongType))) := by
+  generalize hw : W.err (-32602) none = want at h
+  cases h <;> simp_all [refusal]
+  all_goals (try (split at hw <;> simp_all))
+
+/-- "structurally invalid requests (an id on a notification-only method, required params missing) are
+rejected with … -32600" — both receiving sides. -/
+theorem sound_code_invalidRequest (tv : List String) (tr : Hist) (j : Nat) (hf : FiresAt tv tr j (.codeWrong (.err (-32600) none))) :
+    ∃ m o, At tr j m o ∧ m.req.hasId = true ∧ o.w ≠ .err (-32600) none ∧ ∃ f, flagsOf m = some f ∧
+      ((f.notification = true) ∨ (f.missingParamsOK = false ∧ (m.req.params = .absent ∨ m.req.params = .null))) := by
+  obtain ⟨m, o, hat, hne, hr⟩ := sound_code_wrong tv tr j _ hf
+  obtain ⟨h1, _, f, h2, h3⟩ := rule_invalidRequest hr
+  exact ⟨m, o, hat, h1, hne, f, h2, h3⟩
+
+/-- "undecodable parameters … are rejected with … -32602" (and incomplete per-request metadata, C06). -/
+theorem sound_code_invalidParams (tv : List String) (tr : Hist) (j : Nat) (hf : FiresAt tv tr j (.codeWrong (.err (-32602) none))) :
+    ∃ m o, At tr j m o ∧ m.req.hasId = true ∧ o.w ≠ .err (-32602) none ∧
+      ((m.new = true ∧ metaComplete m.req = false) ∨ m.req.params = .objUndecodable ∨ m.req.params = .wrongType) := by
+  obtain ⟨m, o, hat, hne, hr⟩ := sound_code_wrong tv tr j _ hf
+  obtain ⟨h1, h2⟩ := rule_invalidParams hr
+  refine ⟨m, o, hat, h1, hne, ?_⟩
+  rcases h2 with h | ⟨_, h⟩
+  · exact Or.inl h
+  · exact Or.inr h
+
 /-- **Every reported clause contradicts the property clause it names.** -/
 theorem monitor_sound (tv : List String) (tr : Hist) (j : Nat) (cl : Clause) (h : runMon tv tr = some (j, cl)) :
     ¬ P_of tv cl tr := by
